@@ -372,7 +372,8 @@ def invariant(st, hist):
                         "d%d called=%r, reference fired=%r" % (i, d.called, M.fired)))
             continue
         if M.wait is not None:
-            ok = rr == ("def", M.wait)
+            ok = rr == ("def", M.wait) or (getattr(d, "_chainedTo", None) is st.d[M.wait] and
+                                           (rr is None or rr[0] == "def"))
         else:
             ok = rr == M.result
         if not ok:
@@ -427,6 +428,8 @@ def run_shard(shard, tier, seed):
     extra = {"config": [k0, k1]}
 
     def inv(st, hist):
+        for f in st.flags:
+            stats.outcome(f)
         bad = invariant(st, hist)
         for sig, detail in bad:
             stats.violation(sig, detail, dict(extra, history=[list(e) for e in hist]))
@@ -436,8 +439,6 @@ def run_shard(shard, tier, seed):
         nt = st.flags - {"waiter-resumed-ok", "waiter-resumed-fail", "inner-already-fired"}
         if nt:
             stats.nt((k0, k1, canon(st)))
-        for f in st.flags:
-            stats.outcome(f)
 
     res = bfs(lambda: St(k0, k1), apply, enabled, canon, inv, depth, on_state=on_state)
     res.violations = []
